@@ -267,6 +267,13 @@ def r1_format_args(run: Run, src):
         for c in ast.walk(f.node):
             if isinstance(c, ast.Call) and isinstance(c.func, ast.Attribute) and c.func.attr == '_get_cell_with_cell_preprocessor':
                 a = c.args[0] if c.args else None
+                if isinstance(a, ast.Name):
+                    # a local that names the result of the naming function
+                    defs_ = [st.value for st in ast.walk(f.node) if isinstance(st, ast.Assign) and
+                             any(isinstance(t_, ast.Name) and t_.id == a.id for t_ in st.targets)]
+                    if defs_ and all(isinstance(d_, ast.Call) and isinstance(d_.func, ast.Attribute) and
+                                     d_.func.attr in ('_get_cell_function_name', '_get_sub_cell_function_name') for d_ in defs_):
+                        a = defs_[0]
                 okc = isinstance(a, ast.Call) and isinstance(a.func, ast.Attribute) and \
                     a.func.attr in ('_get_cell_function_name', '_get_sub_cell_function_name')
                 run.check(okc, 'C07.R1', f'{f.qualname}/member-reference', 'reference-name',
@@ -418,6 +425,12 @@ def run(run: Run):
     run.floor('C07.R1', 70)
     run.floor('C07.R2', 2)
     run.floor('C07.R3', 1)
+    from . import pipeline_eval as _pe7
+    from ..grammar import get_grammar as _gg7
+    run.rule('C07.R9', 'awkward sheet titles, constant texts and formula literals come back as the texts they are, end to end by evaluation '
+                       '(translation, class text, evaluation of the class text)')
+    run.guard('C07.R9', _pe7.hostile_obligations, run, 'C07.R9', src, _gg7(src))
+    run.floor('C07.R9', 40)
     from .common import shared_mechanisms as _shared
     _shared(run, 'C07', 8, ['rejections'])
     return INFO
